@@ -38,7 +38,7 @@ func (b *fencedCodeBlockParser) Open(parent ast.Node, reader text.Reader, pc Con
 	if pos < 0 || (line[pos] != '`' && line[pos] != '~') {
 		return nil, NoChildren
 	}
-	findent := pos
+	findent := pc.BlockIndent() // in columns: the indentation may be written with a tab
 	fenceChar := line[pos]
 	i := pos
 	for ; i < len(line) && line[i] == fenceChar; i++ {
